@@ -119,3 +119,13 @@ theorem term_min (a x lo hi : Int) (h1 : lo ≤ x) (h2 : x ≤ hi) :
     · simp [hp, hn]; rw [Int.mul_comm]; exact Int.mul_le_mul_of_nonpos_left (by omega) h2
     · have : a = 0 := by omega
       subst this; simp
+
+/-- C12 (implied lower bound, coefficient a > 0):  a·x ≥ t  ⇒  x ≥ ⌊t / a⌋  (the candidate `floor(t/a)` never cuts off x) -/
+theorem implied_lower (a x t : Int) (ha : 0 < a) (h : a * x ≥ t) : t / a ≤ x := by
+  apply Int.ediv_le_of_le_mul ha
+  rw [Int.mul_comm] at h; exact h
+
+/-- C12 (implied upper bound, coefficient −a' < 0):  −a'·x ≥ t  ⇔  a'·x ≤ −t  ⇒  x ≤ ⌊(−t) / a'⌋ = ⌊t / (−a')⌋ -/
+theorem implied_upper (a' x t : Int) (ha : 0 < a') (h : -(a' * x) ≥ t) : x ≤ (-t) / a' := by
+  apply Int.le_ediv_of_mul_le ha
+  rw [Int.mul_comm]; omega
